@@ -635,6 +635,15 @@ func (c *EvalCtx) call(n *Node) Val {
 			}
 		}
 		return out
+	case "has_prefix":
+		t := arg(0).(Text)
+		p, _ := arg(1).(Text).concrete()
+		if !singleAtom(t) {
+			specErr(n, "has_prefix(atom, literal)")
+		}
+		return mkVar(fmt.Sprintf("hasprefix!%s!%q", t.Frags[0].Atom, p), SBool)
+	case "lower":
+		return derivedAtom("lower", arg(0).(Text))
 	case "index_rune":
 		t := arg(0).(Text)
 		rs, _ := arg(1).(Text).concrete()
@@ -684,6 +693,9 @@ func (c *EvalCtx) call(n *Node) Val {
 			}
 		}
 		return tTrue
+	case "abs_has_error":
+		k, _ := c.evalTerm(n.Kids[0]).intVal()
+		return mkVar(fmt.Sprintf("hasError!v%d", k), SBool)
 	case "cmp_equal":
 		return mkVar("cmpeq!"+refTag(arg(0))+"!"+refTag(arg(1)), SBool)
 	case "cmp_options_only":
